@@ -197,3 +197,33 @@ def prepare_counter(ctx):
         raise CheckBroken("coq model build failed:\n" + log[-3000:])
     model = ocaml_build("counter_drv", ["counter_ex"])
     return bins["sgv-counter"], model, langs
+
+
+def weighted_lang(rng, langs):
+    """languages with more marker kinds are drawn more often (more interleavings to get wrong)"""
+    w = [1 + 2 * max(0, len(l.single) - 1) + len(l.multi) for l in langs]
+    return rng.choices(langs, weights=w, k=1)[0]
+
+
+def directed_comment_body(rng, sy):
+    """comment text built from the syntax's own markers in every order: openers, closers, the OTHER
+    line-comment prefixes, quotes -- the interleavings a position-based guard can get wrong"""
+    parts = []
+    openers = [m[0] for m in sy.multi if m[0] and m[4] == 0] + (["--[[", "--[==["] if any(m[4] == 1 for m in sy.multi) else [])
+    closers = [m[1] for m in sy.multi if m[1] and m[4] == 0]
+    pool = []
+    if openers:
+        pool.append(rng.choice(openers))
+    if sy.single:
+        pool.append(rng.choice(sy.single))
+        if len(sy.single) > 1:
+            pool.append(rng.choice(sy.single))
+    if closers and rng.random() < 0.3:
+        pool.append(rng.choice(closers))
+    if rng.random() < 0.4:
+        pool.append(rng.choice(['"', "'", "it's", '"q"']))
+    rng.shuffle(pool)
+    out = rng.choice(["", " ", " see "])
+    for x in pool:
+        out += x + rng.choice(["", " ", " x ", "src/", " é "])
+    return out
